@@ -47,6 +47,8 @@ pub struct GenCfg {
     /// prefix every literal text with a unique tag
     pub tags: bool,
     pub max_pieces: usize,
+    /// lower bound on the number of pieces of a rich string (default 1)
+    pub min_pieces: usize,
     pub max_comp_depth: usize,
     /// allow foreign keys whose target is `null` in that locale
     pub fk_to_null: bool,
@@ -82,6 +84,7 @@ impl Default for GenCfg {
             p_formatter: 25,
             tags: true,
             max_pieces: 8,
+            min_pieces: 1,
             max_comp_depth: 4,
             fk_to_null: false,
             fk_chains: true,
@@ -210,7 +213,13 @@ impl<'t> Gen<'t> {
 
     /// pieces of an interpolated string; `vars`/`comps` = names it may use
     pub fn pieces(&mut self, tag: &str, depth: usize, rich: bool) -> Vec<Piece> {
-        let n = if rich { self.t.range(1, self.cfg.max_pieces) } else { 1 };
+        let n = if rich {
+            let lo = if depth == 0 { self.cfg.min_pieces.max(1).min(self.cfg.max_pieces) } else { 1 };
+            let hi = if depth == 0 { self.cfg.max_pieces.max(lo) } else { self.cfg.max_pieces.min(10).max(lo) };
+            self.t.range(lo, hi)
+        } else {
+            1
+        };
         let mut out = vec![];
         for _ in 0..n {
             let kind = if !rich {
